@@ -619,3 +619,86 @@ def run_prelude(seqs):
                 getattr(sp, name)(*args)
             except Exception:
                 pass
+
+
+# ---------------------------------------------------------------------------
+# structural symbolic equality of results (numbers with tolerance)
+# ---------------------------------------------------------------------------
+def sym_equal(I, a, b, tol=1e-9):
+    """truth value (bool | z3 Bool) of a == b for nested results: numbers (tolerance), strings, lists/tuples, dicts, arrays"""
+    import numpy as np, ast as _ast
+    def norm(x):
+        if isinstance(x, tuple) and len(x) == 2 and isinstance(x[0], str) and x[0] == "__vstack__":
+            return [list(r) for r in x[1]]
+        if isinstance(x, np.ndarray):
+            return x.tolist()
+        if isinstance(x, SymArray):
+            return list(x.items)
+        if has_gitems(x):
+            return as_glist(x)
+        return pyscalar(x)
+    a, b = norm(a), norm(b)
+    if a is b:
+        return True
+    if isinstance(a, (str, SymStr)) or isinstance(b, (str, SymStr)):
+        if not (isinstance(a, (str, SymStr)) and isinstance(b, (str, SymStr))):
+            if isinstance(a, FD) or isinstance(b, FD):
+                return I.truth(I.binop(_ast.Eq(), a, b))
+            return False
+        try:
+            parts = I.str_eq_parts(a, b)
+        except Unsupported:
+            return None
+        ts = [I.truth(p) for p in parts]
+        if any(t is False for t in ts):
+            return False
+        ts = [zbool(t) for t in ts if t is not True]
+        return z3.And(*ts) if ts else True
+    if isinstance(a, GList) or isinstance(b, GList):
+        if not (isinstance(a, GList) and isinstance(b, GList)) or len(a.items) != len(b.items):
+            return None
+        ts = []
+        for (g1, v1), (g2, v2) in zip(a.items, b.items):
+            e = sym_equal(I, v1, v2, tol)
+            if e is None:
+                return None
+            ts.append(z3.And(zbool(g1) == zbool(g2), z3.Implies(zbool(g1), zbool(e))))
+        return z3.And(*ts) if ts else True
+    if isinstance(a, (list, tuple)) and isinstance(b, (list, tuple)):
+        if len(a) != len(b) or (isinstance(a, tuple) != isinstance(b, tuple)):
+            return False
+        ts = []
+        for x, y in zip(a, b):
+            e = sym_equal(I, x, y, tol)
+            if e is None:
+                return None
+            if e is False:
+                return False
+            if e is not True:
+                ts.append(zbool(e))
+        return z3.And(*ts) if ts else True
+    if isinstance(a, dict) and isinstance(b, dict):
+        if list(a.keys()) != list(b.keys()):
+            return False
+        return sym_equal(I, list(a.values()), list(b.values()), tol)
+    if a is None or b is None:
+        return a is b
+    na = is_sym(a) or isinstance(a, (int, float))
+    nb = is_sym(b) or isinstance(b, (int, float))
+    if na and nb and not isinstance(a, bool) and not isinstance(b, bool):
+        if not is_sym(a) and not is_sym(b):
+            return abs(float(a) - float(b)) <= tol
+        try:
+            za = zreal(a) if is_sym(a) else rv(float(a))
+            zb = zreal(b) if is_sym(b) else rv(float(b))
+        except Unsupported:
+            return I.truth(I.binop(_ast.Eq(), a, b))
+        if za.eq(zb):
+            return True
+        return within(za - zb, tol)
+    if is_sym(a) or is_sym(b):
+        return I.truth(I.binop(_ast.Eq(), a, b))
+    try:
+        return bool(a == b)
+    except Exception:
+        return None
